@@ -1,6 +1,7 @@
 import Femio.Model.FistrMsh
 import Femio.Model.FistrOrient
 import Femio.Model.FistrHist
+import Femio.Model.FistrSections
 import Femio.Lemmas.FistrMshProps
 import Femio.Lemmas.FistrRoundtrip
 import Femio.Lemmas.FistrG4
@@ -510,5 +511,85 @@ theorem C01_append_counterexample :
     (run Cfg.fixed ⟨exMesh, none⟩ [.place staleText, .write true]).file.bind readMsh = some (canon exMesh) := by
   refine ⟨by decide, ?_⟩
   exact (C01_history_roundtrip ⟨exMesh, none⟩ [.place staleText] true C01_exMesh_wf (Or.inl rfl)).1
+
+end Femio.C01
+
+/-! ### several sections, many-to-one materials; a split `!INITIAL CONDITION` block (round 5) -/
+namespace Femio.C01
+open Femio.Fistr
+
+/-- **C01_assign_complete**: the reader's resolution of materials onto elements (`_resolve_assignments_materials`, model
+    `assignRows`) gives EVERY member of the group of EVERY row `(material, group)` of the section table the value of that
+    row's material — whatever the order of the two tables and however many rows name the same material. -/
+theorem C01_assign_complete {β} (groups : List (Name × List Nat)) (mats : List (Name × β)) :
+    ∀ (secs : List (Name × Name)) (out : List (Nat × β)), assignRows groups mats secs = some out →
+    ∀ (m g : Name) (ids : List Nat) (v : β) (e : Nat), (m, g) ∈ secs → lookupS g groups = some ids →
+      lookupS m mats = some v → e ∈ ids → (e, v) ∈ out := by
+  intro secs
+  induction secs with
+  | nil => intro out _ m g ids v e hs; cases hs
+  | cons s t ih =>
+    intro out h m g ids v e hs hg hm he
+    unfold assignRows at h
+    split at h
+    · rename_i ids' v' r hg' hm' hr
+      cases h
+      rcases List.mem_cons.mp hs with rfl | hs
+      · simp only at hg' hm'
+        rw [hg] at hg'; rw [hm] at hm'
+        cases hg'; cases hm'
+        exact List.mem_append_left _ (List.mem_map.mpr ⟨e, he, rfl⟩)
+      · exact List.mem_append_right _ (ih r hr m g ids v e hs hg hm he)
+    · cases h
+
+/-- **C01_assign_sound**: and nothing else — every `(element, value)` of the result comes from a row of the section
+    table: the element is a member of the row's group, the value is the row's material. -/
+theorem C01_assign_sound {β} (groups : List (Name × List Nat)) (mats : List (Name × β)) :
+    ∀ (secs : List (Name × Name)) (out : List (Nat × β)), assignRows groups mats secs = some out →
+    ∀ (e : Nat) (v : β), (e, v) ∈ out → ∃ m g ids, (m, g) ∈ secs ∧ lookupS g groups = some ids ∧
+      lookupS m mats = some v ∧ e ∈ ids := by
+  intro secs
+  induction secs with
+  | nil => intro out h e v hev; cases h; cases hev
+  | cons s t ih =>
+    intro out h e v hev
+    unfold assignRows at h
+    split at h
+    · rename_i ids' v' r hg' hm' hr
+      cases h
+      rcases List.mem_append.mp hev with hl | hr'
+      · obtain ⟨i, hi, hiv⟩ := List.mem_map.mp hl
+        cases hiv
+        exact ⟨s.1, s.2, ids', List.mem_cons_self, hg', hm', hi⟩
+      · obtain ⟨m, g, ids, hs, hg, hm, he⟩ := ih r hr e v hr'
+        exact ⟨m, g, ids, List.mem_cons_of_mem _ hs, hg, hm, he⟩
+    · cases h
+
+/-- two parts made of the same material: `GA → STEEL, GB → ALUMINIUM, GC → STEEL` -/
+def sharedSecs : List (Name × Name) := [(c!"STEEL", c!"GA"), (c!"ALUMINIUM", c!"GB"), (c!"STEEL", c!"GC")]
+def sharedGroups : List (Name × List Nat) := [(c!"GA", [12, 7]), (c!"GB", [3]), (c!"GC", [5, 100])]
+def sharedMats : List (Name × Nat) := [(c!"ALUMINIUM", 70), (c!"STEEL", 205)]
+
+/-- **C01_assign_dict_counterexample**: walking the sections through a dictionary keyed by the material name (instead of
+    the list of rows) silently drops the elements of the earlier section that shares a material: elements 12 and 7 of
+    `GA` get no material at all, although nothing raises and both walks agree with each other. -/
+theorem C01_assign_dict_counterexample :
+    assignRows sharedGroups sharedMats sharedSecs = some [(12, 205), (7, 205), (3, 70), (5, 205), (100, 205)] ∧
+    assignRowsDict sharedGroups sharedMats sharedSecs = some [(5, 205), (100, 205), (3, 70)] := by decide
+
+def g7Text (split : Bool) : List Line :=
+  [c!"!NODE", c!"5,0,0,0", c!"2,1,0,0", c!"9,0,1,0", c!"!ELEMENT,TYPE=731", c!"1,5,2,9",
+   c!"!INITIAL CONDITION, TYPE=TEMPERATURE", c!"5,10", c!"2,20"]
+  ++ (if split then [c!"!INITIAL CONDITION, TYPE=TEMPERATURE"] else []) ++ [c!"9,30", c!"!END"]
+
+/-- **G7, counterexample on the current tree**: the `!INITIAL CONDITION, TYPE=TEMPERATURE` block given in two blocks —
+    the reader keeps the LAST block only (`nodal_data.update` overwrites), pads it with zeros to the number of nodes and
+    binds the rows to the nodes by position: node 5 reads 30 (the value of node 9), nodes 2 and 9 read 0. -/
+theorem C01_split_initial_counterexample :
+    (readMsh (g7Text false)).map (fun r => r.nodal.map fun p => p.2.map fun row => (row.1, row.2.map (·.m)))
+      = some [[(5, [10]), (2, [20]), (9, [30])]] ∧
+    (readMsh (g7Text true)).map (fun r => r.nodal.map fun p => p.2.map fun row => (row.1, row.2.map (·.m)))
+      = some [[(5, [30]), (2, [0]), (9, [0])]] := by
+  decide
 
 end Femio.C01
